@@ -871,6 +871,9 @@ the database server got the FTP client its service brings along; NIC 2 is the en
 example : (build exScenario).toOption.map (fun inv => inv.nodes.map fun n => (n.nics.length, n.software.length)) =
     some [(3, 6), (3, 11)] := by decide
 
+/-- with keys 2, 3 (declared as 3 then 2) NIC number = key: NIC 2 carries the entry under key 2, NIC 3 the one under key 3. -/
+example : (declaredNode exHost).nics.map (·.ip) = [some 0xC0A80A0A#32, some 0xC0A80B0A#32, some 0xAC100105#32] := by decide
+
 /-- the same scenario with every mapping reversed -/
 def exScenarioRev : Scenario :=
   { exScenario with
